@@ -611,8 +611,42 @@ def _op_history(S, out, op):
     if len(cand) >= 2 and any(S.mutated_since.values()):
         S.nontrivial = True
         S.counts["history-over-2+-snapshots-after-mutation"] += 1
+    if not out.violations and len(S.r.core) > 1:
+        _mixed_class_queries(S, out, op, steps, cand, cur)
     if moved:
         S.counts["history-moved-object"] += 1
+
+
+def _mixed_class_queries(S, out, op, steps, cand, cur):
+    """One getHistories call for objects of several classes, some of which may be absent from earlier snapshots (assemblies
+    charged later).  Mirror-image pairs [assembly X + block of Y] and [block of X + assembly Y] (and one with a component) so that
+    whatever order the classes are visited in, each class is once the one whose objects are missing from a step."""
+    assems = list(S.r.core)
+    fresh = [a for a in assems if int(a.p.serialNum) in S.fresh]
+    x = fresh[op["obj"] % len(fresh)] if fresh else assems[op["obj"] % len(assems)]
+    others = [a for a in assems if a is not x]
+    y = others[op["obj2"] % len(others)]
+    bx, by = x[op["obj3"] % len(x)], y[op["obj3"] % len(y)]
+    queries = [[x, by], [bx, y], [list(bx)[0], y, by], [x, list(by)[0]]]
+    arg_steps = None if steps is None else list(steps)
+    for comps in queries:
+        res = S.db.getHistories(comps, ["serialNum"], arg_steps)
+        S.counts["history-mixed-classes"] += 1
+        for comp in comps:
+            sn, cls = int(comp.p.serialNum), type(comp).__name__
+            want = sorted(step for step, snaps in cand.items() if any(sn in snap and snap[sn]["cls"] == cls for snap in snaps))
+            hist = res.get(comp, {}).get("serialNum", {})
+            got = sorted((int(k[0]), int(k[1])) for k in hist)
+            if len(want) < len(cand):
+                S.counts["history-mixed-classes-with-absent-object"] += 1
+            ok = got == want or (cur not in want and got == sorted(want + [cur]) and want)
+            if not ok:
+                out.fail("history/mixed-classes-steps", "getHistories(%s, ['serialNum'], timeSteps=%r): %s %d has steps %r, it exists in the snapshots of %r"
+                         % ([type(c).__name__ for c in comps], steps, cls, sn, got, want))
+                return
+            if any(int(v) != sn for v in hist.values()):
+                out.fail("history/mixed-classes-value", "getHistories of mixed classes: %s %d reported serial numbers %r" % (cls, sn, sorted(set(int(v) for v in hist.values()))))
+                return
 
 
 def _op_reopen(S, out, op):
@@ -834,6 +868,7 @@ def hist_execute(case):
     S.nontrivial = False
     S.stale_attr = set()
     S.moved = set()
+    S.fresh = set()
     out.label("geom:" + spec["geom"], "sym:" + spec["symmetry"].split()[0], "assemblies:%d" % len(S.r.core))
     try:
         for step, (kind, op) in enumerate(plan(case)):
@@ -860,6 +895,18 @@ def hist_execute(case):
                         o.p[name] = _make_value(vk, op["val"])
                         S.counts["mutate:" + level] += 1
                         _note_mutation(S)
+            elif kind == "swap" and op["pidx"] % 5 == 3 and S.model and len(S.r.core) > 1:
+                # a fresh assembly of the same design takes the place of one in the core (charged after the first writes:
+                # it and its blocks/components are absent from the earlier snapshots); the old one leaves the model
+                assems = list(S.r.core)
+                old = assems[op["obj"] % len(assems)]
+                loc = old.spatialLocator
+                fresh = S.r.core.createAssemblyOfType(old.getType(), cs=S.cs)
+                S.r.core.removeAssembly(old, discharge=False)
+                S.r.core.add(fresh, loc)
+                S.fresh.add(int(fresh.p.serialNum))
+                S.counts["replace-by-fresh-assembly"] += 1
+                _note_mutation(S)
             elif kind == "swap":
                 cnt = collections.Counter()
                 before = {int(a.p.serialNum): _complete_indices(a) for a in _objects(S.r, "assem")}
